@@ -604,6 +604,58 @@ var _ = reserr.ErrAccessDenied
 //@   requires predConnOK(c)
 //@   resolves[C07] cb exactly-once
 
+// HTTP GET: access is requested with the connection's token and isHTTP; a direct response status
+// of the access answer ends the request (callback, count returned, no resource load); the
+// resource is handed to the encoder only under a get grant; every failure gives the direct
+// subscription back.
+//@ func (*wsConn).GetHTTPSubscription
+//@   requires predConnOK(c)
+//@   assumes predSubsOK(c)
+//@   resolves[C07] cb exactly-once
+//@   assert[C04,C05,C10] c.serv.cache.Access#1: arg0 == sub && arg1 == c.token && arg2
+//@   safety[C15]
+//@ closure (*wsConn).GetHTTPSubscription#1
+//@   requires predConnOK(c) && predSubOf(sub, c)
+//@   resolves[C07] cb exactly-once
+//@ closure (*wsConn).GetHTTPSubscription#2
+//@   requires predConnOK(c) && predSubOf(sub, c) && access != nil && (access.Error != nil || access.AccessResult != nil)
+//@   assumes predCountsOK()
+//@   resolves[C07] cb exactly-once
+//@   ensures[C17,C08] old(meta.IsDirectResponseStatus()) && !old(c.disposing) && old(predCounts(sub)) != 0 ==> sub.direct == old(sub.direct) - 1 && callcount("OnReady") == old(callcount("OnReady"))
+//@   ensures[C04,C08] !old(meta.IsDirectResponseStatus()) && !(access.Error == nil && access.Get) && !old(c.disposing) && old(predCounts(sub)) != 0 ==>
+//@       sub.direct == old(sub.direct) - 1 && callcount("OnReady") == old(callcount("OnReady"))
+//@   callback cb requires[C04,C17] arg0 == nil
+//@   safety[C15]
+//@ closure (*wsConn).GetHTTPSubscription#3
+//@   requires[C04,C17] predConnOK(c) && predSubOf(sub, c) && access != nil && access.Error == nil && access.AccessResult != nil && access.Get
+//@   assumes predSubsOK(c)
+//@   resolves[C07] cb exactly-once
+//@   callback cb requires[C04] arg0 != nil ==> arg0 == sub && arg2 == nil
+//@   safety[C15]
+
+// HTTP POST: the call is forwarded only when the access answer has no direct response status
+// and grants the method, with the connection's own id and token and isHTTP set.
+//@ func (*wsConn).CallHTTPResource
+//@   requires predConnOK(c)
+//@   resolves[C07] cb exactly-once
+//@   assert[C05,C10] c.serv.cache.Access#1: arg0 == sub && arg1 == c.token && arg2
+//@   safety[C15]
+//@ closure (*wsConn).CallHTTPResource#1
+//@   requires predConnOK(c) && predSubOf(sub, c)
+//@   resolves[C07] cb exactly-once
+//@ closure (*wsConn).CallHTTPResource#2
+//@   requires predConnOK(c) && predSubOf(sub, c) && access != nil && (access.Error != nil || access.AccessResult != nil)
+//@   resolves[C07] cb exactly-once
+//@   assert[C05,C17,C10] c.serv.cache.Call#1: !accessMeta.IsDirectResponseStatus() && access.Error == nil &&
+//@       (access.Call == "*" || rescache.predListHas(access.Call, action)) &&
+//@       arg0 == c && arg1 == sub.resourceName && arg2 == sub.resourceQuery && arg3 == action && arg4 == c.token && arg5 == params && arg6
+//@   safety[C15]
+//@ closure (*wsConn).CallHTTPResource#3
+//@   requires predConnOK(c)
+//@   resolves[C07] cb exactly-once
+//@ closure (*wsConn).CallHTTPResource#4
+//@   resolves[C07] cb exactly-once
+
 // auth: forwarded without an access check, with the connection's own id and current token.
 //@ func (*wsConn).AuthResource
 //@   callback cb requires err != nil ==> reserr.predErrOK(err)
